@@ -268,6 +268,34 @@ def m_abs_any(it, args, callee, depth):
     return S.m_abs(it, args, callee, depth)
 
 
+class FromFnIt(S.It):
+    """core::iter::from_fn(f): f() until it returns None"""
+    def __init__(self, f):
+        self.f = f
+
+    def next(self, it, depth):
+        o = A.deref_all(it, it.invoke(self.f, [], depth))
+        if not (isinstance(o, tuple) and o[0] == "adt" and o[2] in ("Some", "None")):
+            raise A.Undecided("iter::from_fn closure returned %r" % (str(o)[:60],))
+        return o[3][0] if o[2] == "Some" else None
+
+
+def m_iter_from_fn(it, args, callee, depth):
+    return ("iter", FromFnIt(args[0]))
+
+
+class RepeatWithIt(S.It):
+    def __init__(self, f):
+        self.f = f
+
+    def next(self, it, depth):
+        return it.invoke(self.f, [], depth)
+
+
+def m_repeat_with(it, args, callee, depth):
+    return ("iter", RepeatWithIt(args[0]))
+
+
 class SkipIt(S.It):
     def __init__(self, a, n):
         self.a, self.n = a, n
@@ -387,6 +415,10 @@ MODELS = {
     "$slice::<impl [T]>::chunks": m_windows(True),
     "$slice::<impl [T]>::chunks_exact": m_windows(True),
     "Iterator::skip": m_skip,
+    "$iter::sources::from_fn::from_fn": m_iter_from_fn,
+    "$core::iter::from_fn": m_iter_from_fn,
+    "$iter::sources::repeat_with::repeat_with": m_repeat_with,
+    "$core::iter::repeat_with": m_repeat_with,
     "Iterator::filter_map": m_filter_map,
     "Iterator::filter": m_filter,
     "core::mem::swap": m_mem_swap,
